@@ -244,6 +244,11 @@ Definition limit_reached (ctx : Z) : M unit := if ctx =? 0 then fail PRecursion 
 Definition enter_recursion (ctx : Z) : M Z := if ctx <? 1 then panic SEnterRecursion else ret (ctx - 1).
 
 (* ---------------------------------------------------------------- loops *)
+(* Loops run on fuel taken from the number of remaining bytes (+1): every iteration of every
+   loop of the code consumes at least one byte, which Proofs/ establishes (so POutOfFuel is
+   unreachable); native recursion is modelled by structural recursion on a separate depth
+   budget [d], shown to be bounded by the DecodeContext. *)
+
 (* while buf.remaining() > limit { body } *)
 Fixpoint while_remaining {T} (fuel : nat) (limit : nat) (body : T -> M T) (v : T) : M T :=
   fun s =>
@@ -254,33 +259,40 @@ Fixpoint while_remaining {T} (fuel : nat) (limit : nat) (body : T -> M T) (v : T
       end
     else OOk v s.
 
+Definition while_rem {T} (limit : nat) (body : T -> M T) (v : T) : M T :=
+  let+ rem := remaining in while_remaining (S rem) limit body v.
+
 (* merge_loop: length prefix, then values until the prefix is used up *)
-Definition merge_loop {T} (fuel : nat) (body : T -> M T) (v : T) : M T :=
+Definition merge_loop {T} (body : T -> M T) (v : T) : M T :=
   let+ len := decode_varint in
   let+ rem := remaining in
   if Z.of_nat rem <? len then fail PUnderflow else
   let limit := (rem - Z.to_nat len)%nat in
-  let+ v := while_remaining fuel limit body v in
+  let+ v := while_rem limit body v in
   let+ rem' := remaining in
   if Nat.eqb rem' limit then ret v else fail PDelimited.
 
 (* loop { key; if EndGroup { check tag; return }; body } -- skip_field's and group::merge's loop *)
-Fixpoint group_loop {T} (fuel : nat) (tag : Z) (body : T -> Z -> wire_type -> M T) (v : T) : M T :=
+Fixpoint group_loop_f {T} (fuel : nat) (tag : Z) (body : T -> Z -> wire_type -> M T) (v : T) : M T :=
   match fuel with
   | O => fail POutOfFuel
   | S f =>
       let+ (ftag, fwt) := decode_key in
       match fwt with
       | EndGroup => if ftag =? tag then ret v else fail PEndGroup
-      | _ => let+ v' := body v ftag fwt in group_loop f tag body v'
+      | _ => let+ v' := body v ftag fwt in group_loop_f f tag body v'
       end
   end.
 
+Definition group_loop {T} (tag : Z) (body : T -> Z -> wire_type -> M T) (v : T) : M T :=
+  let+ rem := remaining in group_loop_f (S rem) tag body v.
+
 (* ---------------------------------------------------------------- skip_field *)
-Fixpoint skip_field (fuel : nat) (wt : wire_type) (tag : Z) (ctx : Z) : M unit :=
-  match fuel with
+(* [d] bounds the native recursion depth (one level per nested group) *)
+Fixpoint skip_field (d : nat) (wt : wire_type) (tag : Z) (ctx : Z) : M unit :=
+  match d with
   | O => fail POutOfFuel
-  | S f =>
+  | S d' =>
       let+ _ := limit_reached ctx in
       let+ len :=
         match wt with
@@ -289,15 +301,18 @@ Fixpoint skip_field (fuel : nat) (wt : wire_type) (tag : Z) (ctx : Z) : M unit :
         | SixtyFourBit => ret skip_width64
         | LengthDelimited => decode_varint
         | StartGroup =>
-            let+ _ := group_loop f tag
+            let+ _ := group_loop tag
                         (fun (_ : unit) itag iwt =>
-                           let+ ctx' := enter_recursion ctx in skip_field f iwt itag ctx') tt in
+                           let+ ctx' := enter_recursion ctx in skip_field d' iwt itag ctx') tt in
             ret 0
         | EndGroup => fail PEndGroup
         end in
       let+ rem := remaining in
       if Z.of_nat rem <? len then fail PUnderflow else advance (Z.to_nat len)
   end.
+
+(* depth budget that always suffices: one more than the recursion limit *)
+Definition depth_fuel : nat := S (Z.to_nat recursion_limit).
 
 (* ---------------------------------------------------------------- length delimiters (prost/mod.rs) *)
 (* usize::MAX on the 64-bit targets this is checked on *)
